@@ -297,6 +297,73 @@ func poseidonDrv(raw json.RawMessage, resp *drv.Response) error {
 				}
 			}
 		}
+		// one chip used for several hashes, results read only at the end: a result must not depend on (or be disturbed by) what the
+		// same chip hashed before or after
+		if req.Shard%2 == 0 {
+			type call struct {
+				in []*big.Int
+				m  int // 0 = HashNoPad
+			}
+			for rep := 0; rep < 3; rep++ {
+				var calls []call
+				var flat []*big.Int
+				for _, m := range [][]int{{8, 4, 0}, {4, 4, 4, 2}, {12, 1, 0, 8}}[rep] {
+					n := 1 + rng.Intn(13)
+					c := call{m: m}
+					for i := 0; i < n; i++ {
+						c.in = append(c.in, drv.RandBelow(rng, bigP))
+					}
+					calls = append(calls, c)
+					flat = append(flat, c.in...)
+				}
+				got := make([][]*big.Int, len(calls))
+				err := hc.Run(&engine.Config{Mode: modeOf(req.Mode)}, flat, func(api frontend.API, iv []frontend.Variable) error {
+					chip := poseidon.NewGoldilocksChip(api)
+					outs := make([][]gl.Variable, len(calls))
+					p := 0
+					for ci, c := range calls {
+						vs := make([]gl.Variable, len(c.in))
+						for i := range vs {
+							vs[i] = gl.NewVariable(iv[p])
+							p++
+						}
+						if c.m == 0 {
+							h := chip.HashNoPad(vs)
+							outs[ci] = h[:]
+						} else {
+							outs[ci] = chip.HashNToMNoPad(vs, c.m)
+						}
+					}
+					for ci := range outs { // read only now
+						for _, x := range outs[ci] {
+							got[ci] = append(got[ci], new(big.Int).Set(engine.ToBig(x.Limb)))
+						}
+					}
+					return nil
+				})
+				resp.Count(fmt.Sprintf("glhash-seq/%s/%d/%v", req.Mode, rep, strsOf(flat)), false)
+				if err != nil {
+					resp.Violate("c09/hash-sequence/rejected mode="+req.Mode, firstLine(err), nil)
+					continue
+				}
+				for ci, c := range calls {
+					var want []*big.Int
+					if c.m == 0 {
+						want = o.GlHashNoPad(c.in)
+					} else {
+						want = o.RunPlan("gl", c.in, c.m)
+					}
+					bad := len(got[ci]) != len(want)
+					for i := 0; !bad && i < len(want); i++ {
+						bad = got[ci][i].Cmp(want[i]) != 0
+					}
+					if bad {
+						resp.Violate("c09/hash-sequence/wrong mode="+req.Mode, fmt.Sprintf("hash %d of %d on one chip (n=%d, m=%d), read after all of them: got %v want %v", ci, len(calls), len(c.in), c.m, strsOf(got[ci]), strsOf(want)), map[string]any{"call": ci})
+						break
+					}
+				}
+			}
+		}
 	case "bnperm":
 		rm1 := new(big.Int).Sub(bigR, one)
 		states := [][]*big.Int{{big.NewInt(0), big.NewInt(0), big.NewInt(0), big.NewInt(0)}, {big.NewInt(0), big.NewInt(1), big.NewInt(2), big.NewInt(3)}, {rm1, rm1, rm1, rm1},
